@@ -79,6 +79,13 @@ def corpus_packets() -> List[Tuple[str, str, List[Tuple[int, bytes]], str]]:
         ('post-auth', 'server', [(80, St(b'tcpip-forward') + b'\x01' + St(b'\xff') + U(0xffffffff))], 'tcpip-forward extremes'),
         ('post-auth', 'server', [(98, U(0) + St(b'pty-req') + b'\x01' + St(b'xterm') + U(0xffffffff) * 4 + St(b'\x80\xff\xff\xff\xff'))],
          'pty-req with extreme sizes and modes'),
+        ('post-auth', 'client', [(80, St(b'hostkeys-00@openssh.com') + b'\x00' + St(pair.host_key().public_data) * 2)],
+         'host key rotation listing the trusted key twice (F56)'),
+        ('post-auth', 'client', [(80, St(b'hostkeys-00@openssh.com') + b'\x00' + St(pair.host_key().public_data) + b'\x00\x00')],
+         'host key rotation ending inside a string length'),
+        ('post-auth', 'client', [(80, St(b'hostkeys-00@openssh.com') + b'\x01' +
+                                  St(St(b'ssh-ed25519') + St(bytes(32))) * 2)],
+         'host key rotation with two unknown keys (prove request follows)'),
     ]
 
 
@@ -96,9 +103,18 @@ def corpus_sftp() -> List[Tuple[bytes, str]]:
     S_, u = S.S, S.u32
     init = lambda ext, data: S.sftp_frame(random.Random(1), b'')[:0] + u(len(b'\x01' + u(3) + S_(ext) + S_(data))) + \
         b'\x01' + u(3) + S_(ext) + S_(data)      # noqa: E731
+    fr = lambda body: u(len(body)) + body        # noqa: E731
+
+    def self_copy(roff: int, length: int, woff: int) -> bytes:
+        h0 = u(0)
+        return fr(b'\x01' + u(3)) + fr(b'\x03' + u(1) + S_(b'/f') + u(3) + u(0)) + \
+            fr(b'\xc8' + u(2) + S_(b'copy-data') + S_(h0) + S.u64(roff) + S.u64(length) + S_(h0) + S.u64(woff))
     return [(init(b'supported', b'\x00'), 'INIT v3 with a truncated "supported" extension'),
             (init(b'vendor-id', b''), 'INIT v3 with an empty "vendor-id" extension'),
-            (init(b'acl-supported', b'\x00' * 9), 'INIT v3 with an over-long "acl-supported" extension')]
+            (init(b'acl-supported', b'\x00' * 9), 'INIT v3 with an over-long "acl-supported" extension'),
+            (self_copy(0, 0, 262144), 'copy-data of a file onto itself, to the end, written one block ahead (F57)'),
+            (self_copy(0, 2 ** 63, 1 << 20), 'copy-data of a file onto itself, 2^63 bytes, written ahead (F57)'),
+            (self_copy(0, 0, 100), 'copy-data of a file onto itself with overlapping blocks')]
 
 
 def corpus_sftp_client() -> List[Tuple[List[Tuple[int, bytes]], List[str], str]]:
